@@ -36,6 +36,7 @@ F_UT = "wannierberri/utility.py"
 
 
 def build_formulas(U):
+    U.assume_ensures = False
     NP = Shim()
     ce = U.fn(F_UT, "cached_einsum", globs=dict(np=NP, EINSUM_PATH_CACHE={}), model=False, rewrite_comps=False)
     g = dict(np=NP, abc=abc, cached_einsum=ce, alpha_A=rnp.array([1, 2, 0]), beta_A=rnp.array([2, 0, 1]), transform_ident="IDENT", transform_odd="ODD",
